@@ -259,11 +259,11 @@ PROPS = {
     "C11": {
         "title": "Enumeration and counting agree with the function",
         "rules": [on_program(rules_level.rule_fold_zeros), on_program(rules_level.rule_card_skipped), on_program(rules_level.rule_mark_once), on_program(rules_level.rule_next_level),
-                  rules_orphan.rule_iterator_init],
+                  rules_orphan.rule_iterator_init, on_program(rules_eval.rule_iter_advance)],
         "explanation": STRUCTURAL + ". C11: counting clauses only. Cardinality: the sparse scan is a plain sum in which handle 0 contributes the literal 0 (all three result types instantiate one template); a level the diagram skips "
                        "multiplies the count by the size of that level on every path except primed levels of identity-reduced forests; level 0 counts 1; the next level follows the set/relation dispatch. "
                        "Node and edge counts: the marker queues a handle only if it is a non-terminal not yet marked and marks it first (each reachable node explored once), the packed-node walker offers every stored child, "
-                       "countEdges / countNonzeroEdges unpack FULL / SPARSE and sum the sizes of the marked nodes. Iterators: the fields every accepted end-of-iteration guard rests on are initialised together.",
+                       "countEdges / countNonzeroEdges unpack FULL / SPARSE and sum the sizes of the marked nodes. Iterators: the fields every accepted end-of-iteration guard rests on are initialised together; each advance step of next() touches the cursor, position, minterm entry and edge value of one variable on one side, continues the edge value from the level above on the other side, restarts the right first_* routine below, and running out of steps sets atEnd.",
         "assumptions": ["the order, multiplicity and values reported by the iterators (first/next with masks) are run-time sequences: not decided", "that scaleBy multiplies and addTo adds in each result type is read from the policy bodies only as 'branch-free'",
                         "counts are decided structurally, not numerically"],
         "technique": "must-pass-through and guard-edge dominance over clang CFGs of card_templ::_compute, node_marker::addToQueue and the storage walker; policy-body inspection (branch-free accumulate); constructor/mode agreement of the two edge counters",
